@@ -1,7 +1,37 @@
 // Native replay support for C08 (cfg(discret_verif) only): construct the private parts of the inbound query service.
 use super::*;
 
+/// the receiver yields every room the handler admits (works with the room channel before and after it also carried revocations)
 pub fn make_inbound_query_service() -> (InboundQueryService, tokio::sync::mpsc::UnboundedReceiver<Uid>) {
-    let (room_sender, room_receiver) = mpsc::unbounded_channel::<Uid>();
+    let (room_sender, mut inner) = mpsc::unbounded_channel();
+    let (tx, room_receiver) = mpsc::unbounded_channel::<Uid>();
+    tokio::spawn(async move {
+        while let Some(m) = inner.recv().await {
+            if let Some(u) = admitted_of(m) {
+                let _ = tx.send(u);
+            }
+        }
+    });
     (InboundQueryService { room_sender }, room_receiver)
+}
+
+trait RoomUpdate {
+    fn admitted(self) -> Option<Uid>;
+}
+impl RoomUpdate for Uid {
+    fn admitted(self) -> Option<Uid> {
+        Some(self)
+    }
+}
+impl RoomUpdate for (Uid, bool) {
+    fn admitted(self) -> Option<Uid> {
+        if self.1 {
+            Some(self.0)
+        } else {
+            None
+        }
+    }
+}
+fn admitted_of<T: RoomUpdate>(m: T) -> Option<Uid> {
+    m.admitted()
 }
